@@ -225,6 +225,7 @@ class Atoms:
         self.tab: List[Tuple[str, Rat]] = []
         self.clip_transparent = clip_transparent
         self.clip_sites: List[Tuple[str, Rat]] = []
+        self.exp_args: List[Rat] = []  # arguments of every exp evaluated (for "which exponentials occur" comparisons)
         self.positive: set = set()  # atom names declared/derived positive
 
     def _lookup(self, kind: str, arg: Rat) -> Tuple[Optional[str], Fr]:
@@ -250,6 +251,8 @@ class Atoms:
         return None
 
     def exp(self, a: Rat, kind: str = "exp") -> Rat:
+        if kind == "exp":
+            self.exp_args.append(a)
         if a.is_zero():
             return ONE
         if a.is_polynomial():
